@@ -31,18 +31,6 @@ thread_local! {
     static STATE: RefCell<AnchorState> = RefCell::new(AnchorState::default());
 }
 
-pub(crate) fn reset() {
-    STATE.with(|state| {
-        let mut s = state.borrow_mut();
-        s.stack.clear();
-        s.store.rc.clear();
-        s.store.arc.clear();
-        s.store.rc_recursive.clear();
-        s.store.arc_recursive.clear();
-        s.in_progress.clear();
-    });
-}
-
 pub(crate) fn with_anchor_context<R>(
     kind: AnchorKind,
     anchor: Option<usize>,
@@ -245,14 +233,20 @@ pub(crate) fn get_arc_recursive<T: Any + Send + Sync>(id: usize) -> Result<Optio
 }
 
 pub(crate) fn with_document_scope<R>(f: impl FnOnce() -> R) -> R {
-    reset();
-    struct ResetGuard;
-    impl Drop for ResetGuard {
+    // Park the state of an enclosing document (a parse nested inside a user `Deserialize`
+    // impl) and give this document a fresh one; put the outer state back afterwards.
+    struct RestoreGuard(Option<AnchorState>);
+    impl Drop for RestoreGuard {
         fn drop(&mut self) {
-            reset();
+            let saved = self.0.take().unwrap_or_default();
+            // Swap first, drop afterwards: dropping the finished document's pointers must not
+            // happen while the cell is borrowed.
+            let finished = STATE.with(|state| std::mem::replace(&mut *state.borrow_mut(), saved));
+            drop(finished);
         }
     }
-    let guard = ResetGuard;
+    let saved = STATE.with(|state| std::mem::take(&mut *state.borrow_mut()));
+    let guard = RestoreGuard(Some(saved));
     let result = f();
     drop(guard);
     result
